@@ -1,6 +1,7 @@
 package main
 
 import (
+	"os"
 	"fmt"
 	"go/types"
 	"math/big"
@@ -117,6 +118,9 @@ type absRes struct {
 func (ex *Exec) zeroValue(t types.Type) Value {
 	if n := ex.vecDim(t); n > 0 {
 		if _, isPtr := t.(*types.Pointer); !isPtr {
+			if ex.isCyc(t) {
+				return ex.cycZero(n)
+			}
 			return ex.vecZero(n)
 		}
 	}
@@ -328,7 +332,7 @@ func (ex *Exec) load(st *PState, p Value) Value {
 			}
 			fail("limb access into abstracted element (only zero elements may be accessed by limb)")
 		}
-		return walk(ex.objValue(st, q.Obj), q.Path)
+		return ex.underGuard(st, walk(ex.objValue(st, q.Obj), q.Path))
 	case *ChoiceV:
 		var res Value
 		first := true
@@ -715,7 +719,6 @@ func (ex *Exec) forAlts(v Value, f func(g *Term, v Value) Value) Value {
 	return res
 }
 
-
 func (ex *Exec) loadSub(st *PState, p *PtrV) Value {
 	arr := walk(ex.objValue(st, p.Obj), p.Path).(*ArrayV)
 	out := &ArrayV{E: make([]Value, p.Sub.N)}
@@ -736,7 +739,6 @@ func (ex *Exec) storeSub(st *PState, p *PtrV, v Value) {
 		ex.store(st, ep, av.E[i])
 	}
 }
-
 
 // storeLimb handles limb-wise initialisation of an abstracted field element from a literal
 // (e.g. a constant table entry given by its Montgomery limbs): once all limbs are known the
@@ -849,4 +851,139 @@ func ratReconstruct(v, q *big.Int) (*big.Int, *big.Int, bool) {
 	}
 	// prefer the representative of a closest to zero
 	return a, b, true
+}
+
+// guardLits returns the set of literals (term ids; negative for negated) that the path guard of
+// st asserts conjunctively.
+func (ex *Exec) guardLits(g *Term) map[int]bool {
+	if m, ok := ex.guardLitCache[g.id]; ok {
+		return m
+	}
+	m := map[int]bool{}
+	var rec func(t *Term, pos bool, depth int)
+	rec = func(t *Term, pos bool, depth int) {
+		if depth < 8 {
+			if t.op == "not" {
+				rec(t.args[0], !pos, depth+1)
+				return
+			}
+			if (t.op == "and" && pos) || (t.op == "or" && !pos) {
+				for _, a := range t.args {
+					rec(a, pos, depth+1)
+				}
+				return
+			}
+		}
+		if pos {
+			m[t.id] = true
+		} else {
+			m[-t.id] = true
+		}
+	}
+	rec(g, true, 0)
+	if len(ex.guardLitCache) > 4096 {
+		ex.guardLitCache = map[int]map[int]bool{}
+	}
+	ex.guardLitCache[g.id] = m
+	return m
+}
+
+// underGuard selects the alternative of a merged scalar that the current path guard fixes
+// syntactically (a value merged at a join whose condition the path has since decided).
+func (ex *Exec) underGuard(st *PState, v Value) Value {
+	t, ok := v.(*Term)
+	if !ok || t.op != "ite" || st.g == nil || st.g.IsConst() {
+		return v
+	}
+	lits := ex.guardLits(st.g)
+	var eval func(c *Term, depth int) int
+	eval = func(c *Term, depth int) int {
+		if c.IsConst() {
+			if c == ex.ts.Bool(true) {
+				return 1
+			}
+			return -1
+		}
+		if lits[c.id] {
+			return 1
+		}
+		if lits[-c.id] {
+			return -1
+		}
+		if depth > 3 {
+			return 0
+		}
+		switch c.op {
+		case "not":
+			return -eval(c.args[0], depth+1)
+		case "and":
+			all := true
+			for _, a := range c.args {
+				switch eval(a, depth+1) {
+				case -1:
+					return -1
+				case 0:
+					all = false
+				}
+			}
+			if all {
+				return 1
+			}
+		case "or":
+			none := true
+			for _, a := range c.args {
+				switch eval(a, depth+1) {
+				case 1:
+					return 1
+				case 0:
+					none = false
+				}
+			}
+			if none {
+				return -1
+			}
+		}
+		return 0
+	}
+	for d := 0; d < 4 && t.op == "ite"; d++ {
+		r := eval(t.args[0], 0)
+		if r > 0 {
+			t = t.args[1]
+		} else if r < 0 {
+			t = t.args[2]
+		} else if sr := ex.guardDecides(st, t.args[0]); sr > 0 {
+			t = t.args[1]
+		} else if sr < 0 {
+			t = t.args[2]
+		} else {
+			if os.Getenv("VERIF_DEBUG_UG") != "" {
+				fmt.Fprintf(os.Stderr, "underGuard: undecided cond %s under guard %s\n", t.args[0].str(3), st.g.str(4))
+			}
+			break
+		}
+	}
+	return t
+}
+
+// guardDecides asks the solver whether the path guard fixes the value of c (cached; bounded number
+// of distinct questions per run).
+func (ex *Exec) guardDecides(st *PState, c *Term) int {
+	if ex.solver == nil || ex.initRunningAny() {
+		return 0
+	}
+	key := [2]int{st.g.id, c.id}
+	if r, ok := ex.guardDecideCache[key]; ok {
+		return r
+	}
+	if len(ex.guardDecideCache) >= 256 {
+		return 0
+	}
+	r := 0
+	if ex.checkQuick([]*Term{st.g, c}) == "unsat" {
+		r = -1
+	} else if ex.checkQuick([]*Term{st.g, ex.ts.Not(c)}) == "unsat" {
+		r = 1
+	}
+	ex.guardDecideCache[key] = r
+	return r
 }
